@@ -5008,8 +5008,19 @@ impl Command {
 
             processed.push(a);
 
-            if let Some(arg) = self.find(a) {
-                for r in arg.requires.iter().filter_map(&func) {
+            if let Some(arg_def) = self.find(a) {
+                // `func` judges the rules of `arg` itself (the caller tests their predicates against
+                // `arg`'s own values); a conditional rule of an argument that is only reached through
+                // the chain says nothing about `arg`'s values, so only its unconditional rules are followed
+                let is_root = a == arg;
+                let relevant = arg_def.requires.iter().filter_map(|rule| {
+                    if is_root || matches!(rule.0, ArgPredicate::IsPresent) {
+                        func(rule)
+                    } else {
+                        None
+                    }
+                });
+                for r in relevant {
                     if let Some(req) = self.find(&r) {
                         if !req.requires.is_empty() {
                             r_vec.push(req.get_id());
